@@ -22,6 +22,7 @@ git -C /repo worktree add --detach "$WT" HEAD -q || { log "cannot create worktre
 cp "$SRC/patch.diff" "$OUT/patch.diff"
 [ -f "$SRC/meta.json" ] && cp "$SRC/meta.json" "$OUT/meta.orig.json"
 DEMO="$(ls "$SRC"/demo_test.go "$SRC"/*_test.go 2>/dev/null | head -1)"
+DEMOSH=""; [ -z "$DEMO" ] && [ -f "$SRC/demo.sh" ] && DEMOSH="$SRC/demo.sh" && cp "$DEMOSH" "$OUT/demo.sh.txt"
 [ -n "$DEMO" ] && cp "$DEMO" "$OUT/demo_test.go.txt"
 # where does the demo go?
 DEMODIR="${DEMO_DIR:-}"
@@ -47,6 +48,9 @@ if [ $res_build = yes ]; then
     if (cd "$WT" && timeout 600 go test -vet=off -count=1 -run "$RUNPAT" "./$DEMODIR/" >"$OUT/demo_with_change.txt" 2>&1); then res_demo_with=pass; else res_demo_with=fail; fi
     rm -f "$WT/$DEMODIR/zz_seed_demo_test.go"
   fi
+  if [ -n "$DEMOSH" ]; then
+    if (SRC="$WT" timeout 1200 bash "$DEMOSH" >"$OUT/demo_with_change.txt" 2>&1); then res_demo_with=pass; else res_demo_with=fail; fi
+  fi
 fi
 log "apply=$res_apply build=$res_build suite_passes_with_change=$res_tests demo_with_change=$res_demo_with"
 declare -A caught
@@ -69,6 +73,11 @@ if [ -n "$DEMO" ] && [ -n "$DEMODIR" ]; then
   if (cd "$WT" && timeout 600 go test -vet=off -count=1 -run "$RUNPAT" "./$DEMODIR/" >"$OUT/demo_without_change.txt" 2>&1); then res_demo_without=pass; else res_demo_without=fail; fi
   log "demo_without_change=$res_demo_without"
 fi
+if [ -n "$DEMOSH" ]; then
+  (cd "$WT" && git checkout -q -- . && git clean -fdq)
+  if (SRC="$WT" timeout 1200 bash "$DEMOSH" >"$OUT/demo_without_change.txt" 2>&1); then res_demo_without=pass; else res_demo_without=fail; fi
+  log "demo_without_change=$res_demo_without"
+fi
 python3 - "$OUT" "$PROP" "$NAME" "$TIER" "$res_apply" "$res_build" "$res_tests" "$res_demo_with" "$res_demo_without" "$DEMODIR" "$(for k in "${!caught[@]}"; do echo -n "$k=${caught[$k]} "; done)" "$(git -C /repo log --format=%h -1)" <<'EOF'
 import json,sys,os
 out,prop,name,tier,ap,bu,te,dw,dwo,demodir,caught,head=sys.argv[1:13]
@@ -79,7 +88,7 @@ c={k:int(v) for k,v in (x.split('=') for x in caught.split())}
 meta={"property":prop,"name":name,"breaks":orig.get("clause",""),"needs":orig.get("needs",""),"files":orig.get("files",[]),
  "author":"independent sub-agent given only the property text and a scratch worktree",
  "verified":{"repo_head":head,"applies":ap=="yes","compiles":bu=="yes","existing_suite_passes_with_change":te=="yes",
-   "demonstration":{"file":"demo_test.go.txt","package_dir":demodir,"with_change":dw,"without_change":dwo},
+   "demonstration":{"file":"demo_test.go.txt or demo.sh.txt","package_dir":demodir,"with_change":dw,"without_change":dwo},
    "what_was_run":["git worktree add --detach <scratch> HEAD; git apply patch.diff","go build ./...","go test -vet=off -count=1 ./...","go test -run <demo tests> ./"+demodir+"/ with and without the change"]+[f"VERIF_REPO=<scratch> ./check {k} --tier {tier} -> exit {v}" for k,v in c.items()]},
  "caught_by":[k for k,v in c.items() if v==1],"missed_by":[k for k,v in c.items() if v!=1]}
 json.dump(meta,open(os.path.join(out,'meta.json'),'w'),indent=1)
